@@ -120,3 +120,46 @@ def _(c):
     c.args[2] = ("units", EnumInt("pyoda_time._period_units:PeriodUnits", 1, 63, scale=16))
 
 
+
+
+from .gens import YearMonthG  # noqa: E402
+
+
+def _mk_between_ym(mask: int) -> None:
+    names = "+".join(n for n, k in (("YEARS", 1), ("MONTHS", 2)) if mask & k)
+
+    @contract(H + "between_year_months", "C09", name=f"Period.between(YearMonth, YearMonth, {names}): returned in the units asked for, lands between, one sign")
+    def _(c):
+        c.ghost("cal", AbsCalG()).arg("start", YearMonthG()).arg("end", YearMonthG()).arg("units", Const(lambda: __import__("pyoda_time").PeriodUnits(mask)))
+        c.timeout_s = 60
+
+        def setup(eng):
+            from specs import cal_abs, field_models
+
+            cal_abs.install(eng)
+            field_models.install(eng)
+
+        c.setup = setup
+
+        def first(a, ym):
+            o = V.fld(ym, "_YearMonth__start_of_month")
+            return CA.dse(a.cal.cid, V.fld(o, "$y"), V.fld(o, "$m"), 1)
+
+        def post(a, r):
+            years, months, weeks, days, has_time, landing = r
+            s, e = first(a, a.start), first(a, a.end)
+            return And(
+                Not(has_time) if not isinstance(has_time, bool) else (not has_time),
+                weeks == 0,
+                days == 0,
+                True if mask & 1 else years == 0,
+                True if mask & 2 else months == 0,
+                *[Implies(s <= e, x) for x in (s <= landing, landing <= e, years >= 0, months >= 0)],
+                *[Implies(s >= e, x) for x in (e <= landing, landing <= s, years <= 0, months <= 0)],
+            )
+
+        c.returns(post)
+
+
+for _mask in (1, 2, 3):
+    _mk_between_ym(_mask)
